@@ -476,6 +476,22 @@ func c02Handover(w *W) {
 	})
 	rc := c2StartReceiver(w, "C", c, 300*time.Millisecond)
 	accepted := map[string]bool{}
+	// half of the runs: B talks too and A does not read for now (tiny receive
+	// queue), so the pipe is back-pressured in both directions when B is lost
+	bothWays := w.Choose(simrt.SShape, 2) == 0
+	w.SetShape("both_ways", bothWays)
+	if bothWays {
+		mustSet(w, a, mangos.OptionReadQLen, 1)
+		mustSet(w, b, mangos.OptionSendDeadline, 50*time.Millisecond)
+		w.Do("B talks", func() (interface{}, error) {
+			for i := 0; i < 6; i++ {
+				if err := SendBody(b, kind, []byte(fmt.Sprintf("B:0:%d", i))); err != nil {
+					return i, nil
+				}
+			}
+			return 6, nil
+		})
+	}
 	calls := c2Senders(w, a, kind, "A", 1, nmsg, accepted)
 	// C starts knocking; B goes away at some point of the traffic
 	mustSet(w, c, mangos.OptionDialAsynch, true)
